@@ -140,9 +140,204 @@ def reader_level(ctx):
             ctx.disagree('read_packet on a cut stream', line[:300], m[:300], g[:300])
 
 
+def thread_tie(ctx):
+    """Tie of Model/C15Thread.lean to the real code (ported from harness/xcheck/c15thread_xcheck.py):
+    * `c15thread.run`: the REAL NetworkingThread.run, run synchronously on a real Connection whose socket / file
+      object are stubs fed with a server byte stream (login with set-compression + encryption request + login
+      success + play packets; login disconnect; status response; play disconnect) cut at byte offset k, in
+      three segmentations.  Compared: ids handed to listeners, how the thread ended, number of read() calls on
+      the raw file object and of those that returned b'', reactor class and compression flag at the end;
+    * `c15thread.handle`: every row of the live `_handle_exception` table (gen/c15thread.py `_handle_rows`)."""
+    import collections
+    import json
+    import minecraft.networking.connection as C
+    import minecraft.networking.encryption as ENC
+    from minecraft.networking import packets as P
+    from minecraft.networking.packets import clientbound as CB
+    import rsakeys
+    from gen import c15thread as G
+    rng = ctx.rng
+    SECRET = bytes(range(16))
+    varint, string = refcodec.varint, refcodec.string
+    arr = lambda b: varint(len(b)) + b
+    context = C.ConnectionContext(protocol_version=757)
+    ids = {'sc': CB.login.SetCompressionPacket.get_id(context), 'enc': CB.login.EncryptionRequestPacket.get_id(context),
+           'ok': CB.login.LoginSuccessPacket.get_id(context), 'dc': CB.login.DisconnectPacket.get_id(context),
+           'pdc': CB.play.DisconnectPacket.get_id(context)}
+    KN = {'LoginReactor': 'login', 'PlayingReactor': 'play', 'PlayingStatusReactor': 'pstatus', 'StatusReactor': 'status'}
+
+    class SegFile(SegStream):
+        def close(self):
+            pass
+
+    class StubSock(object):
+        def send(self, d):
+            return len(d)
+
+        def shutdown(self, how):
+            pass
+
+        def close(self):
+            pass
+
+        def fileno(self):
+            return 0
+
+    def server_wire(script):
+        """script: [(id, fields, effect)], effect in None | 'sc:<t>' | 'enc' -> wire bytes, zlib table"""
+        thr, enc, wire, zmap = None, None, b'', []
+        for pid, fields, eff in script:
+            payload = varint(pid) + fields
+            if thr is None:
+                body = payload
+            elif thr >= 0 and len(payload) > thr:
+                comp = zlib.compress(payload)
+                zmap.append((comp, payload))
+                body = varint(len(payload)) + comp
+            else:
+                body = varint(0) + payload
+            frame = varint(len(body)) + body
+            if enc is not None:
+                frame = enc.update(frame)
+            wire += frame
+            if eff and eff.startswith('sc:'):
+                thr = int(eff[3:])
+            elif eff == 'enc':
+                enc = refcodec.CFB8(SECRET, encrypt=True)
+        return wire, zmap
+
+    def real_run(kind, segs):
+        allowed = {757, 756} if kind == 'pstatus' else {757}
+        events, delivered, calls = [], [], []
+        conn = C.Connection('h', 1, username='u', allowed_versions=allowed, initial_version=340 if len(allowed) > 1 else None,
+                            handle_exception=lambda e, i: events.append(('exc', type(e).__name__)),
+                            handle_exit=lambda: events.append(('exit',)))
+        conn.context.protocol_version = 757
+        # EARLY listener = "handed to _react" (the model's notion of delivered): a late listener does not see the
+        # packet whose reaction raises (login disconnect)
+        conn.register_packet_listener(lambda p: delivered.append(p), P.Packet, early=True)
+        f = SegFile(segs)
+        conn.socket, conn.file_object, conn.connected = StubSock(), f, True
+        conn._outgoing_packet_queue = collections.deque()
+        conn.options.compression_enabled = False
+        conn.options.compression_threshold = -1
+        if kind == 'login':
+            conn.reactor = C.LoginReactor(conn)
+        elif kind == 'play':
+            conn.reactor = C.PlayingReactor(conn)
+        elif kind == 'pstatus':
+            conn.reactor = C.PlayingStatusReactor(conn)
+            conn.connect = lambda: calls.append(sorted(conn.allowed_proto_versions))
+        else:
+            conn.reactor = C.StatusReactor(conn, do_ping=False)
+            conn.reactor.handle_status = lambda d: events.append(('status',))
+        t = C.NetworkingThread(conn)
+        conn.networking_thread = t
+        t.run()
+        got = [p.id if type(p) is P.Packet else p.get_id(conn.context) for p in delivered]
+        excs = [e[1] for e in events if e[0] == 'exc']
+        if excs == ['EOFError'] and not calls:
+            end = 'eof'
+        elif kind == 'pstatus' and not excs and calls == [[340]]:
+            end = 'eof'                      # swallowed, and the documented fallback connect(340)
+        elif not excs and len(calls) == 1 and len(calls[0]) == 1:
+            end = 'negotiated:%d' % calls[0][0]
+        elif not excs and not calls and ('exit',) in events:
+            end = 'interrupted'
+        elif len(excs) == 1 and not calls:
+            end = 'other'
+        else:
+            end = 'unclassified:%r:%r' % (events, calls)
+        return 'ids=%s end=%s kind=%s comp=%d reads=%d eofreads=%d' % (
+            ','.join(map(str, got)) or '-', end, KN.get(type(conn.reactor).__name__, type(conn.reactor).__name__),
+            bool(conn.options.compression_enabled), f.reads, f.empties)
+
+    def normal(reply):
+        toks = reply.split()
+        if not toks or toks[0] != 'ok':
+            return reply
+        lids = [t.split(':')[0] for t in toks[1:] if '=' not in t]
+        return 'ids=%s %s' % (','.join(lids) or '-', ' '.join(t for t in toks[1:] if '=' in t))
+
+    der = rsakeys.RSA_1024['der']
+    login = [
+        (4, varint(7) + string('ch') + b'xyz', None),
+        (ids['sc'], varint(8), 'sc:8'),
+        (0x7E, b'abcdefghijklmnop', None),          # unknown id in login state, above the threshold
+        (4, varint(9) + string('c'), None),
+        (ids['enc'], string('-') + arr(der) + arr(b'tokn'), 'enc'),
+        (4, varint(1) + string('d') + b'q', None),
+        (ids['ok'], bytes(16) + string('u'), None),
+        (0x7E, b'abcdef', None),
+        (0x7D, b'0123456789abcdefXYZ', None),
+    ]
+    rthr = rng.choice([0, 4, 64])
+    refused = [(ids['sc'], varint(rthr), 'sc:%d' % rthr), (4, varint(2) + string('c') + b'0123', None),
+               (ids['dc'], string('{"text":"no"}'), None), (0x7E, b'late', None)]
+    status = [(0, string(json.dumps({'version': {'name': 'x', 'protocol': 757}})), None), (0x7E, b'more', None)]
+    play = [(0x7E, b'abc', None), (ids['pdc'], string('{"text":"bye"}'), None), (0x7E, b'zzz', None)]
+    cases = []
+    every = ctx.thorough or ctx.searching
+    for name, kind, script in (('login', 'login', login), ('login-refused', 'login', refused), ('pstatus', 'pstatus', status),
+                               ('status', 'status', status), ('play', 'play', play)):
+        wire, zmap = server_wire(script)
+        ks = range(len(wire) + 1)
+        if not every and len(wire) > 60:
+            ks = sorted(set(rng.sample(range(len(wire) + 1), 60)) | {0, len(wire)})
+        for k in ks:
+            cut = wire[:k]
+            a = k // 3
+            segms = [('one', [cut])]
+            if every or rng.random() < 0.25:
+                segms.append(('bytes', [cut[i:i + 1] for i in range(len(cut))]))
+            if every or rng.random() < 0.25:
+                segms.append(('three', [cut[:a], b'', cut[a:2 * a + 1], cut[2 * a + 1:]]))
+            if every or rng.random() < 0.5:
+                rs, i = [], 0
+                while i < len(cut):
+                    n = rng.choice([1, 2, 3, 7, 30, 200])
+                    rs.append(cut[i:i + n])
+                    i += n
+                segms.append(('random', rs))
+            for segm, segs in segms:
+                cases.append((name, kind, k, segm, segs, zmap))
+    lines = ['c15thread.run %s sc=%d enc=%d ok=%d dc=%d pdc=%d neg=757 key=%s zmap=%s %s' % (
+        kind, ids['sc'], ids['enc'], ids['ok'], ids['dc'], ids['pdc'], SECRET.hex(),
+        ','.join('%s:%s' % (c.hex(), p.hex()) for c, p in zmap) or '-',
+        ' '.join(hx(s) for s in segs)) for (_, kind, _, _, segs, zmap) in cases]
+    saved = (C.select, ENC.generate_shared_secret)
+    C.select = types.SimpleNamespace(select=lambda r, w, x, timeout=None: (list(r), [], []))
+    ENC.generate_shared_secret = lambda: SECRET
+    try:
+        reals = [real_run(kind, segs) for (_, kind, _, _, segs, _) in cases]
+    finally:
+        C.select, ENC.generate_shared_secret = saved
+    for (name, kind, k, segm, segs, _), line, mo, real in zip(cases, lines, ctx.driver.ask(lines), reals):
+        ctx.case(('c15thread.run', name, k, segm, tuple(segs)))
+        ctx.count('thread.' + name)
+        ctx.count('thread.end.' + real.split('end=')[1].split()[0].split(':')[0])
+        if normal(mo) != real:
+            ctx.disagree('NetworkingThread.run on a cut server stream (%s cut at %d, %s)' % (name, k, segm),
+                         line[:700], mo[:400], real)
+    # ---- c15thread.handle: the model's prediction of every row of the live _handle_exception table
+    Cg, X = G._modules()
+    probed = G._probed(X)
+    rows = G._handle_rows(Cg, probed, G._universe(probed))
+    hl = ['c15thread.handle %d %d %d' % r[:3] for r in rows]
+    for r, line, mo in zip(rows, hl, ctx.driver.ask(hl)):
+        ctx.case(('c15thread.handle',) + r[:3])
+        exp = 'ok %d %d %d %d' % r[3:]
+        if mo != exp:
+            ctx.disagree('Connection._handle_exception (reactor kind, exception class number, fallback fails)',
+                         line, mo, exp)
+    ctx.extra['c15thread_run_pairs'] = ctx.extra.get('c15thread_run_pairs', 0) + len(lines)
+    ctx.extra['c15thread_handle_pairs'] = ctx.extra.get('c15thread_handle_pairs', 0) + len(hl)
+
+
 def run(ctx):
     ctx.extra['rule'] = RULE
     reader_level(ctx)
+    thread_tie(ctx)
     try:
         from corr import c15e2e
     except ImportError:
